@@ -19,6 +19,7 @@ import (
 	"github.com/teleport-network/teleport/syscontracts"
 	erc20contracts "github.com/teleport-network/teleport/syscontracts/erc20"
 	stakingcontract "github.com/teleport-network/teleport/syscontracts/staking"
+	agentcontract "github.com/teleport-network/teleport/syscontracts/xibc_agent"
 	endpointcontract "github.com/teleport-network/teleport/syscontracts/xibc_endpoint"
 	packetcontract "github.com/teleport-network/teleport/syscontracts/xibc_packet"
 	clienttypes "github.com/teleport-network/teleport/x/xibc/core/client/types"
@@ -71,6 +72,11 @@ type Pkt struct {
 	AckedAt    int64
 	Refunded   bool
 	AckRelayer kit.Account // relayer (teleport account) that delivered the receive
+
+	ViaAgent bool           // outer packet whose call data asks the agent contract to forward the tokens
+	RefundTo common.Address // agent-sent packet: address the agent refunds on failure
+	Nested   []*Pkt         // packets sent by the destination callback of this packet (observed in the receive tx)
+	Parent   *Pkt           // for a nested packet: the packet whose callback sent it
 }
 
 // World is the multi-chain fixture plus the model.
@@ -258,8 +264,9 @@ type SendSpec struct {
 	Amount   *big.Int
 	Fee      *big.Int
 	Receiver string
-	Call     string // "", "ok", "revert", "hookfail", "nested-unknown", "privileged:<method>"
+	Call     string // "", "ok", "revert", "hookfail", "nested-unknown", "agent:<dstChainName>", "privileged:<method>"
 	Callback common.Address
+	AgentFee *big.Int // fee of the onward packet for Call = "agent:…"
 }
 
 // CallData builds (contractAddress, callData) for a call kind executed on destination chain dst.
@@ -285,6 +292,8 @@ func (w *World) CallData(kind string, dst int) (string, []byte) {
 		d, err := endpointcontract.EndpointContract.ABI.Pack("crossChainCall", ccd, packettypes.Fee{Amount: big.NewInt(0)})
 		kit.Must(err, "pack nested")
 		return syscontracts.EndpointContractAddress, d
+	case strings.HasPrefix(kind, "agent:"):
+		kit.Failf("agent call data is built by Send")
 	case strings.HasPrefix(kind, "privileged:"):
 		m := strings.TrimPrefix(kind, "privileged:")
 		var d []byte
@@ -324,7 +333,22 @@ type SendOutcome struct {
 func (w *World) Send(s SendSpec, wantDumps bool) *SendOutcome {
 	c := w.Chains[s.Src]
 	dstIdx := w.Idx(s.DstName)
-	contract, data := w.CallData(s.Call, dstIdx)
+	var contract string
+	var data []byte
+	if strings.HasPrefix(s.Call, "agent:") {
+		fee := s.AgentFee
+		if fee == nil {
+			fee = big.NewInt(0)
+		}
+		final := strings.TrimPrefix(s.Call, "agent:")
+		var err error
+		data, err = agentcontract.AgentContract.ABI.Pack("send", w.Users[s.User].Addr, s.Receiver, final, fee)
+		kit.Must(err, "pack agent.send")
+		contract = syscontracts.AgentContractAddress
+		s.Receiver = strings.ToLower(agentcontract.AgentContractAddress.String())
+	} else {
+		contract, data = w.CallData(s.Call, dstIdx)
+	}
 	ccd := packettypes.CrossChainData{
 		DstChain: s.DstName, TokenAddress: s.Token, Receiver: s.Receiver, Amount: s.Amount,
 		ContractAddress: contract, CallData: data, CallbackAddress: s.Callback,
@@ -346,7 +370,7 @@ func (w *World) Send(s SendSpec, wantDumps bool) *SendOutcome {
 		p := kit.DecodePacket(bz)
 		pk := &Pkt{ID: len(w.Pkts), Bz: bz, P: p, T: Triple{p.SrcChain, p.DstChain, p.Sequence}, SrcIdx: s.Src, DstIdx: w.Idx(p.DstChain),
 			Token: s.Token, Amount: new(big.Int).Set(s.Amount), Fee: new(big.Int).Set(s.Fee), FeeTok: s.Token, Sender: w.Users[s.User],
-			Call: s.Call, SentAt: c.Header.Height}
+			Call: s.Call, SentAt: c.Header.Height, ViaAgent: strings.HasPrefix(s.Call, "agent:"), RefundTo: w.Users[s.User].Addr}
 		if common.IsHexAddress(s.Receiver) {
 			pk.RecvAdr = common.HexToAddress(s.Receiver)
 		}
@@ -415,6 +439,29 @@ func (w *World) NoteRecv(ci int, pk *Pkt, res kit.TxResult, relayer kit.Account)
 			pk.AckBz = acks[i]
 			_ = pk.Ack.ABIDecode(acks[i])
 		}
+	}
+	// packets sent by the callback (e.g. the agent contract forwarding the tokens)
+	c := w.Chains[ci]
+	for _, bz := range kit.SentPackets(res) {
+		p := kit.DecodePacket(bz)
+		if p.SrcChain != c.ChainID {
+			continue
+		}
+		n := &Pkt{ID: len(w.Pkts), Bz: bz, P: p, T: Triple{p.SrcChain, p.DstChain, p.Sequence}, SrcIdx: ci, DstIdx: w.Idx(p.DstChain),
+			Amount: big.NewInt(0), Fee: big.NewInt(0), Sender: kit.Account{Addr: common.HexToAddress(p.Sender)}, Call: "", SentAt: c.Header.Height,
+			RefundTo: pk.RefundTo, Parent: pk}
+		var td packettypes.TransferData
+		if err := td.ABIDecode(p.TransferData); err == nil {
+			n.Amount = new(big.Int).SetBytes(td.Amount)
+			n.Token = common.HexToAddress(td.Token)
+			if common.IsHexAddress(td.Receiver) {
+				n.RecvAdr = common.HexToAddress(td.Receiver)
+			}
+		}
+		ft, fa := c.PacketFee(p.DstChain, p.Sequence)
+		n.FeeTok, n.Fee = ft, fa
+		w.Pkts = append(w.Pkts, n)
+		pk.Nested = append(pk.Nested, n)
 	}
 }
 
